@@ -549,6 +549,45 @@ func checkRemovalIdentity(c *Ctx, rule string) {
 	if n == 0 {
 		c.Unresolved(rule, "no delete from Set.all")
 	}
+	// an entry overwritten by another object: the object that leaves the map is notified too - a later removal of the
+	// address only reaches the object stored then
+	nu := 0
+	for _, fn := range p.FuncsIn(hostPkg) {
+		if p.isTestFn(fn) {
+			continue
+		}
+		eachInstr(fn, func(_ *ssa.BasicBlock, _ int, in ssa.Instruction) {
+			mu, ok := in.(*ssa.MapUpdate)
+			if !ok {
+				return
+			}
+			if f, _ := loadedField(mu.Map); f != all {
+				return
+			}
+			nu++
+			site := fmt.Sprintf("%s member overwrite#%d notifies the object it replaces", fnKey(fn), nu)
+			key := accessPath(mu.Key, nil, 0)
+			notified := false
+			eachInstr(fn, func(_ *ssa.BasicBlock, _ int, in2 ssa.Instruction) {
+				c2, ok := in2.(*ssa.Call)
+				if !ok || !isCallToFn(c2, mr) {
+					return
+				}
+				fromOld := derives(c2.Call.Args[0], func(v ssa.Value) bool {
+					lk, ok := v.(*ssa.Lookup)
+					if !ok {
+						return false
+					}
+					f, _ := loadedField(lk.X)
+					return f == all && accessPath(lk.Index, nil, 0) == key
+				})
+				if fromOld && findPath(posOf(in2), pathQuery{target: func(x ssa.Instruction) bool { return x == in }}) != nil {
+					notified = true
+				}
+			})
+			c.Check(notified, rule, site, mu.Pos(), "the previous object for the address is marked removed before the entry is overwritten", "an entry of the member map can be overwritten by another object without the object that leaves being notified: sessions established on it wait on its removal latch, and a later removal of the address reaches only the object stored then - established connections to a removed host stay open")
+		})
+	}
 }
 
 // checkTierRebuild: every function that writes or replaces a healthy tier reaches buildHealthyCache on every path.
